@@ -168,8 +168,12 @@ class Reporter:
                   level='model_checking', coverage=cov,
                   assumptions=self.assumptions, wall_s=round(wall, 2),
                   violations=len(new))
-        os.makedirs(os.path.join(VERIF, 'evidence'), exist_ok=True)
-        path = os.path.join(VERIF, 'evidence', self.prop + '.json')
+        edir = os.path.join(VERIF, 'evidence')
+        if os.environ.get('VERIF_NO_EVIDENCE'):
+            # mutation / self-test runs must not overwrite committed evidence
+            edir = os.path.join(VERIF, 'replays', '_mutation_evidence')
+        os.makedirs(edir, exist_ok=True)
+        path = os.path.join(edir, self.prop + '.json')
         tmp = path + '.tmp'
         with open(tmp, 'w') as f:
             json.dump(ev, f, indent=1, sort_keys=True)
